@@ -50,6 +50,12 @@ let compOpp = function
 | Lt -> Gt
 | Gt -> Lt
 
+(** val pred : nat -> nat **)
+
+let pred n0 = match n0 with
+| O -> n0
+| S u -> u
+
 module Coq__1 = struct
  (** val add : nat -> nat -> nat **)
  let rec add n0 m =
@@ -3664,9 +3670,9 @@ let ends_with s p =
    | OExc e -> (s', (OExc e))
    | _ -> (s', (OExc AttributeError)))
 
-(** val pred : z -> z -> bool **)
+(** val pred0 : z -> z -> bool **)
 
-let pred k x =
+let pred0 k x =
   if Z.leb Z0 k then Z.eqb x k else negb (Z.eqb x (Z.opp k))
 
 (** val pred_none : z -> bool **)
@@ -3677,7 +3683,7 @@ let pred_none k =
 (** val cond_holds : z -> out -> bool **)
 
 let cond_holds k = function
-| OItem x -> pred k x
+| OItem x -> pred0 k x
 | _ -> pred_none k
 
 (** val scan :
@@ -5872,3 +5878,99 @@ let run_edit inp =
       | Ok donor -> run_loop (length opsz) donor root opsz
       | Err _ -> (Zneg XH) :: [])
    | Err _ -> (Zneg XH) :: [])
+
+type res_match = str * z option
+
+type regex_error =
+| AttributeError0
+| RegexTypeError
+
+(** val token_matches :
+    (str -> (nat * str) list) -> str -> z -> res_match list **)
+
+let token_matches finditer s p =
+  map (fun m -> ((snd m), (Some (Z.add p (Z.of_nat (fst m)))))) (finditer s)
+
+(** val leaf_matches :
+    (str -> (nat * str) list) -> expr -> res_match list * regex_error option **)
+
+let leaf_matches finditer = function
+| EText t -> ((token_matches finditer t.ttext (Zneg XH)), None)
+| ERaw (s, p) -> ((token_matches finditer s p), None)
+| EStr s ->
+  (match finditer s with
+   | [] -> ([], None)
+   | _ :: _ -> ([], (Some AttributeError0)))
+| _ -> ([], (Some RegexTypeError))
+
+(** val search_strs :
+    (str -> (nat * str) list) -> expr list -> res_match list * regex_error
+    option **)
+
+let rec search_strs finditer = function
+| [] -> ([], None)
+| x :: l' ->
+  let (ms, o) = leaf_matches finditer x in
+  (match o with
+   | Some e -> (ms, (Some e))
+   | None -> let (ms', r) = search_strs finditer l' in ((app ms ms'), r))
+
+(** val search_regex :
+    (str -> (nat * str) list) -> item0 -> res_match list * regex_error option **)
+
+let search_regex finditer n0 =
+  search_strs finditer (map snd (text n0))
+
+(** val find_lit : str -> nat -> nat -> str -> (nat * str) list **)
+
+let rec find_lit pat skip i s = match s with
+| [] ->
+  (match skip with
+   | O -> (match pat with
+           | [] -> (i, []) :: []
+           | _ :: _ -> [])
+   | S _ -> [])
+| _ :: s' ->
+  (match skip with
+   | O ->
+     if starts_with s pat
+     then (i, pat) :: (find_lit pat (pred (length pat)) (S i) s')
+     else find_lit pat O (S i) s'
+   | S k -> find_lit pat k (S i) s')
+
+(** val find_literal : str -> str -> (nat * str) list **)
+
+let find_literal pat s =
+  find_lit pat O O s
+
+(** val enc_match : res_match -> z list **)
+
+let enc_match m =
+  app (enc_str0 (fst m))
+    (match snd m with
+     | Some q -> (Zpos XH) :: (q :: [])
+     | None -> Z0 :: (Z0 :: []))
+
+(** val enc_regex_error : regex_error option -> z **)
+
+let enc_regex_error = function
+| Some r ->
+  (match r with
+   | AttributeError0 -> Zpos XH
+   | RegexTypeError -> Zpos (XO XH))
+| None -> Z0
+
+(** val run_regex : z list -> z list **)
+
+let run_regex = function
+| [] -> (Zneg (XO XH)) :: []
+| strict :: rest ->
+  (match rest with
+   | [] -> (Zneg (XO XH)) :: []
+   | _ :: _ ->
+     let (pat, src) = take_str0 rest in
+     (match parse (map Z.to_N src) (negb (Z.eqb strict Z0)) [] with
+      | Ok e ->
+        let (ms, r) = search_regex (find_literal pat) ([], e) in
+        app (enc_list enc_match ms) ((enc_regex_error r) :: [])
+      | Err er -> (Zneg XH) :: ((err_code er) :: [])))
